@@ -39,7 +39,8 @@ pub fn compare(rendered: &Rendered, found: &[BlockDump], check_gt: bool) -> Vec<
     }
     for (i, (exp, got)) in rendered.blocks.iter().zip(found).enumerate() {
         let name = got.attributes.iter().find(|(k, _)| k == "name").map(|(_, v)| v.as_str());
-        if name != Some(exp.name.as_str()) {
+        let attributes_match = if exp.name.is_empty() { got.attributes.is_empty() } else { name == Some(exp.name.as_str()) };
+        if !attributes_match {
             problems.push(("wrong-order-or-attributes".into(), format!("block #{i}: expected name {} in source order, found attributes {:?}", exp.name, got.attributes)));
             continue;
         }
@@ -149,7 +150,7 @@ impl Space for C03Space {
         self.alphabet
             .iter()
             .enumerate()
-            .filter(|(_, s)| Renderer::applicable(self.kit, &families, MAX_NESTING, self.cross_family, s))
+            .filter(|(_, s)| Renderer::applicable(self.kit, &families, MAX_NESTING, self.cross_family, segs.last(), s))
             .map(|(i, _)| {
                 let mut next = state.clone();
                 next.push(i as u16);
